@@ -473,6 +473,7 @@ def main():
         for ci in range(len(cases)):
             for li in range(len(cases[ci])):
                 a, b = impl_by_cfg[base][ci][li], impl_by_cfg[c][ci][li]
+                if cases[ci][li].startswith('sem '): continue      # the language operations themselves differ by build (that is what `Cfg` models)
                 if a != b:
                     all_findings.append(Finding('config', '%s vs %s' % (base, c), ci, li, cases[ci][li], a + ' | ' + b, model_by_cfg[base][ci][li][0], model_by_cfg[base][ci][li][1]))
                     break
